@@ -27,11 +27,14 @@ _CODEC_NOTE = ('Proved for all inputs (no bound): every integer / list-header / 
                'decoding, and the spec-level round-trip lemmas (rt_int8/16/20/31, rt_list_start, rt_pack, rt_packed) connect them. '
                'Token dictionary lookups (TokenDictionary.getToken / getIndex against the two tables as sequences: every primary entry 0..235 '
                'incl. the last, first match, secondary fall-back; ReadDecoder.getToken / getTokenDouble) are under discharged contracts '
-               '(contracts/C01_tokens.py).  JID strings and the recursive tree functions (writeString, writeJid, writeInternal, readString, '
-               'nextTreeInternal, readList, readAttributes) are NOT under discharged contracts: that level is decided by the bounded stand-in only.')
+               '(contracts/C01_tokens.py).  writeString / writeJid / readString are under contracts that pin the CHOICE of wire form and the '
+               'arguments handed to the leaf writers / readers (token vs. JID split at the first @ vs. literal, one reader per token class), with '
+               'the callees as events (contracts/C01_strings.py) - not a functional spec of the recursion.  The tree functions (writeInternal, '
+               'writeAttributes, nextTreeInternal, readList, readAttributes) and the end-to-end round trip of strings and trees are decided by '
+               'the bounded stand-in only.')
 
 PROPS['C01'] = {
-    'sidecars': ['contracts/C01_codec.py', 'contracts/C01_tokens.py'],
+    'sidecars': ['contracts/C01_codec.py', 'contracts/C01_tokens.py', 'contracts/C01_strings.py'],
     'level': 'other',
     'explanation': _CODEC_NOTE + ' Bounded stand-in: real encoder -> real decoder on generated well-formed trees with strict comparison.',
     'native_checks': [{'name': 'c01_roundtrip', 'cmd': ['bounded/codec_check.py', 'c01'],
@@ -44,7 +47,7 @@ PROPS['C01'] = {
                  'tree level: bounded native round trip (labelled bounded)',
 }
 PROPS['C02'] = {
-    'sidecars': ['contracts/C01_codec.py', 'contracts/C01_tokens.py'],
+    'sidecars': ['contracts/C01_codec.py', 'contracts/C01_tokens.py', 'contracts/C01_strings.py'],
     'level': 'other',
     'explanation': _CODEC_NOTE + ' Bounded stand-in: real encoder -> independent reference decoder; reference encoder with random choice '
                    'vectors -> real decoder; dictionary compared entry by entry with the reference copy; table facts.',
